@@ -38,6 +38,7 @@ def cases(draw, tier="quick"):
         "raise_for": st.lists(st.integers(0, n - 1), max_size=4, unique=True),
         "exc": st.sampled_from(["boom", "boom2", "skip", "content"]),
         "kind": st.sampled_from(["function", "function", "partial", "object", "method"])}), max_size=2))
+    case["repeat"] = draw(st.sampled_from([1, 1, 1, 2]))
     return case
 
 
@@ -85,7 +86,14 @@ def check(case):
                 return o
             ctype = dr.ComponentType if ob["on"] == "all" else dyn.type_of(ob["on"])
             observers.append((make(), ctype))
-        broker, escaped = dyn.execute(case, b, drv, observers)
+        graphs = {}
+        if int(case.get("repeat", 1)) > 1:
+            # a first evaluation of the same graph object (fresh broker, same faults): whatever it leaves
+            # behind must not change how the second one accounts for its failures
+            dyn.execute(case, b, drv, observers, graphs=graphs)
+            b.log[:] = []
+            b.raised.clear()
+        broker, escaped = dyn.execute(case, b, drv, observers, graphs=graphs)
         if escaped is not None:
             raise Violation("an exception escaped the evaluation: %s: %s" % (type(escaped).__name__, escaped))
         ex = dyn.model(case, active)
